@@ -4,7 +4,8 @@ from fractions import Fraction as Fr
 
 
 def x_patterns(n, tier, seed=0, gaps=(1, 2, 3, 4), quick_k=2, thorough_k=8, start=0):
-    """concrete strictly increasing integer abscissae: the all-ones pattern plus seeded gap patterns"""
+    """concrete strictly increasing integer abscissae: the all-ones pattern (from `start`) plus seeded gap patterns that begin at start + 2
+    (a non-zero first abscissa: code that forgets to subtract the origin, or adds it, is only visible away from x0 = 0)"""
     pats = [[start + i for i in range(n)]]
     rnd = random.Random(1000 * n + seed)
     k = quick_k if tier == 'quick' else thorough_k
@@ -12,7 +13,7 @@ def x_patterns(n, tier, seed=0, gaps=(1, 2, 3, 4), quick_k=2, thorough_k=8, star
     while len(pats) < k and tries < 100:
         tries += 1
         g = [rnd.choice(gaps) for _ in range(n - 1)]
-        xs = [start]
+        xs = [start + 2]
         for v in g:
             xs.append(xs[-1] + v)
         if xs not in pats:
